@@ -26,6 +26,7 @@ EXPLANATION = (
     'through on_thread_leaving.  The allotment arithmetic, the L-1 worker bound and instantaneous concurrency <= max_concurrency '
     'as a timing property are NOT decided.')
 EXPLANATION += ' Added after the seeded-change rounds: ' + "D2 also: an external thread searches for a slot only below the arena's concurrency (violated on the pinned tree for task_arena(1): known finding); D5 also: after a global_control is destroyed the first element of the ascending control list becomes active; D7: what a scope object's constructor always saves from outside state is used by its destructor on every path."
+EXPLANATION += ' Added in the third session (round-3 seeds and the findings they led to): ' + 'D5 also: every successful test_and_set / try_clear_if of my_pool_state / my_mandatory_concurrency is reported to the threading control on every path (path-sensitive in the result flags).'
 ASSUMPTIONS = ['Linux build configuration', 'spin_mutex / rw_mutex scoped lock model']
 ND = ['allotment arithmetic (sum = min(demand, limit), priorities)', 'the L-1 worker bound', 'instantaneous concurrency <= max_concurrency']
 LOCKCLS = lambda c: c.endswith('scoped_lock') or c in ('std::lock_guard',)   # noqa: E731
